@@ -47,8 +47,8 @@ func (s *RespStream) Next(untilClose bool) (*Resp, error) {
 	}
 	r, err := http.ReadResponse(br, &http.Request{Method: m})
 	if err != nil {
-		if err == io.ErrUnexpectedEOF || err == io.EOF {
-			return nil, nil // incomplete head
+		if err == io.ErrUnexpectedEOF || err == io.EOF || !untilClose {
+			return nil, nil // incomplete head (while the connection is open any error may be due to missing bytes)
 		}
 		return nil, err
 	}
@@ -57,7 +57,7 @@ func (s *RespStream) Next(untilClose bool) (*Resp, error) {
 	}
 	body, err := io.ReadAll(r.Body)
 	if err != nil {
-		if err == io.ErrUnexpectedEOF {
+		if err == io.ErrUnexpectedEOF || !untilClose {
 			return nil, nil // incomplete body
 		}
 		return nil, err
